@@ -51,7 +51,7 @@ func genC19(r *Rng, tier string, idx int) *Program {
 	p.Cfg.AppAutoCkpt = 0
 	p.Cfg.InitRows = []int{0, 5, 40}[r.Intn(3)]
 	p.Params = map[string]int64{
-		"gens":      int64(r.Range(1, 2)),
+		"gens":      int64(r.Range(1, 3)),
 		"indices":   int64(r.Range(1, 4)),
 		"txns":      int64(r.Range(1, 4)),
 		"layout":    int64(r.Uint64() >> 2),
@@ -101,7 +101,9 @@ func (e *Env) runC19() *Violation {
 	fs := int64(24 + ps)
 	prevLen := int64(0)
 	for g := 0; g < int(p.Params["gens"]); g++ {
-		gen := fmt.Sprintf("%016x", 0x1111111111111111*uint64(g+1))
+		// generation ids are random in the real writer: their lexical order (the
+		// listing order) is independent of their age
+		gen := fmt.Sprintf("%016x", r.Uint64())
 		e.App.Do(&Step{K: "hold_rollback"})
 		e.App.Do(&Step{K: "reader_end"})
 		e.App.Do(&Step{K: "ckpt", Mode: "TRUNCATE"})
